@@ -145,6 +145,21 @@ def hasUncondReset (resets : List (String × String × String × String × Nat))
   resets.any (fun r => r.1 = pkg && r.2.2.1 = field && (reachFrom calls pkg 4 ["MakeData"]).contains r.2.1
     && (r.2.2.2.2 = 0 || afterReturnOK.contains (pkg, r.2.1, field)))
 
+/-- the caches (`derived` fields): the only methods that may assign each of them -/
+def derivedSites : List ((String × String) × List String) := [
+  (("internal/enumer", "pkg"), ["addPackage"]),                 -- the scanned files of the package, built by LoadPackage
+  (("internal/mapper", "destPkg"), ["LoadPackage"]),
+  (("internal/mapper", "mapperpkg"), ["loadTypeMapperPkg"]),    -- set when the type embeds a mapper; parseMapper reads it only then
+  (("internal/mapper", "newShooter"), ["newShooterIface"]),     -- memoised constant interface
+  (("internal/shoot", "tmp"), ["tmpl", "RegisterTransfer"]),    -- parsed template, dropped when a template function is registered
+  (("internal/shoot", "transfers"), ["RegisterTransfer"]),
+  (("internal/shoot", "pkg"), ["SetPkg"]),
+  (("internal/shoot", "allInOneFile"), ["LoadPackage"]),
+  (("internal/shoot", "fileNameMap"), ["confirmTypes"])]
+
+/-- the caches of the four `Generator` structs that a per-type step (a method `MakeData` reaches through top-level calls) may assign -/
+def perTypeCaches : List (String × String) := [("internal/mapper", "mapperpkg"), ("internal/mapper", "newShooter")]
+
 /-! ## Regions: is the carried state *relevant* for a type? -/
 
 /-- `hasNew` left true by an earlier type changes NewT's parameters exactly when this type has no mark
